@@ -158,6 +158,11 @@ impl<T> RawTable<T> {
     /// While we try to make this incremental where possible, it may require all-at-once resizing.
     #[cfg_attr(feature = "inline-more", inline)]
     pub(crate) fn reserve(&mut self, additional: usize, hasher: impl Fn(&T) -> u64) {
+        if mem::size_of::<T>() == 0 {
+            // Zero-sized elements take no time to move, and `RawIter::reflect_remove` does not
+            // support them, so never split a table of them.
+            return self.table.reserve(additional, hasher);
+        }
         let need = self.leftovers.as_ref().map_or(0, |t| t.table.len()) + additional;
         if self.table.capacity() - self.table.len() > need {
             // We can accommodate the additional items without resizing, so all is well.
@@ -201,6 +206,10 @@ impl<T> RawTable<T> {
         additional: usize,
         hasher: impl Fn(&T) -> u64,
     ) -> Result<(), TryReserveError> {
+        if mem::size_of::<T>() == 0 {
+            // See `reserve`.
+            return self.table.try_reserve(additional, hasher);
+        }
         let need = self.leftovers.as_ref().map_or(0, |t| t.table.len()) + additional;
         if self.table.capacity() - self.table.len() > need {
             // we can accommodate the additional items without resizing, so all good
@@ -235,6 +244,11 @@ impl<T> RawTable<T> {
     pub(crate) fn insert(&mut self, hash: u64, value: T, hasher: impl Fn(&T) -> u64) -> Bucket<T> {
         if self.table.capacity() == self.table.len() {
             assert!(self.leftovers.is_none());
+            if mem::size_of::<T>() == 0 {
+                // See `reserve`.
+                self.table.reserve(1, &hasher);
+                return self.insert(hash, value, hasher);
+            }
             // Even though this _may_ succeed without growing due to tombstones, handling
             // that case is convoluted, so we just assume this would grow the map.
             self.grow(1);
